@@ -3,111 +3,70 @@
 (* One-call behaviours of the specification: for every operation of the    *)
 (* public method table and every operand tuple of the lattice, the state   *)
 (* `c` records the call (operation, abstract operands, parameters) and the *)
-(* result the specification requires, as a function of the operands'       *)
-(* denotation only.  GEN_Cases.cfg makes TLC print each state as one JSON  *)
-(* line ("@@CASE"); the conformance harness concretises the operands in    *)
-(* every admissible coordinate system / backend / flavor, drives the real  *)
-(* API and compares what comes back with `exp`.                            *)
-(*                                                                         *)
-(* Result encodings:  <<"num", term>>, <<"vec", <<terms>>>>,               *)
-(* <<"bool", "T" | "F" | "either">>, <<"undef">> (no value claimed;        *)
-(* coordinate-system independence is still checked).                       *)
+(* result the specification requires (Eval), as a function of the          *)
+(* operands' denotation only.  TLC prints each state as one JSON line      *)
+(* ("@@CASE"); the conformance harness concretises the operands in every   *)
+(* admissible coordinate system / backend / flavor, drives the real API    *)
+(* and compares what comes back with `exp`.                                *)
 (***************************************************************************)
-EXTENDS Algebra, Lattice, Json
+EXTENDS Eval, Lattice, Json
 
 VARIABLE c
 
-NumR(t)  == IF t = Undef THEN <<"undef">> ELSE <<"num", t>>
-VecR(v)  == IF v = Undef THEN <<"undef">> ELSE <<"vec", v>>
-BoolR(b) == <<"bool", b>>
-None == <<>>
-
-Case(op, a, b, p, exp) == [op |-> op, a |-> a, b |-> b, p |-> p, exp |-> exp]
+Case(op, a, b, p) == [op |-> op, a |-> a, b |-> b, p |-> p, exp |-> Eval(op, a, b, p)]
 
 Dims(lo) == {n \in 2..4 : n >= lo}
+VecsFrom(lo) == UNION {VecOfDim(n) : n \in Dims(lo)}
+AllVecs == Vec2 \cup Vec3 \cup Vec4
+Pairs(n) == VecOfDim(n) \X VecOfDim(n)
 
 \* -------- unary scalar accessors (planar ones on 2-, 3- and 4-D operands, ...)
-Unary(op, lo, F(_)) == { Case(op, v, None, None, NumR(F(v))) : v \in UNION {VecOfDim(n) : n \in Dims(lo)} }
-
-CUnary ==
-    Unary("x", 2, VX) \cup Unary("y", 2, VY) \cup Unary("rho", 2, Rho) \cup Unary("rho2", 2, Rho2)
-    \cup Unary("phi", 2, Phi)
-    \cup Unary("z", 3, VZ) \cup Unary("theta", 3, Theta) \cup Unary("eta", 3, Eta)
-    \cup Unary("costheta", 3, CosTheta) \cup Unary("cottheta", 3, CotTheta)
-    \cup Unary("mag", 3, Mag) \cup Unary("mag2", 3, Mag2)
-    \cup Unary("t", 4, VT) \cup Unary("t2", 4, T2) \cup Unary("tau", 4, Tau) \cup Unary("tau2", 4, Tau2)
-    \cup Unary("beta", 4, Beta) \cup Unary("gamma", 4, Gamma) \cup Unary("rapidity", 4, Rapidity)
-    \cup Unary("Et", 4, Et) \cup Unary("Et2", 4, Et2) \cup Unary("Mt", 4, Mt) \cup Unary("Mt2", 4, Mt2)
-    \cup Unary("abs", 2, Norm) \cup Unary("square", 2, Norm2)
+Planar2 == {"x", "y", "rho", "rho2", "phi", "abs", "square"}
+Spatial3 == {"z", "theta", "eta", "costheta", "cottheta", "mag", "mag2"}
+Lorentz4 == {"t", "t2", "tau", "tau2", "beta", "gamma", "rapidity", "Et", "Et2", "Mt", "Mt2"}
+CUnary == { Case(op, v, None, None) : op \in Planar2, v \in VecsFrom(2) }
+          \cup { Case(op, v, None, None) : op \in Spatial3, v \in VecsFrom(3) }
+          \cup { Case(op, v, None, None) : op \in Lorentz4, v \in Vec4 }
 
 \* -------- unary vector-valued
-CUnaryVec ==
-    { Case("unit", v, None, None, VecR(Unit(v))) : v \in Vec2 \cup Vec3 \cup Vec4 }
-    \cup { Case("neg", v, None, None, VecR(VNeg(v))) : v \in Vec2 \cup Vec3 \cup Vec4 }
-    \cup { Case("to_beta3", v, None, None, VecR(ToBeta3(v))) : v \in Vec4 }
+CUnaryVec == { Case(op, v, None, None) : op \in {"unit", "neg"}, v \in AllVecs }
+             \cup { Case("to_beta3", v, None, None) : v \in Vec4 }
 
 \* -------- scalar-parameter operations
-CScale ==
-    { Case("scale", v, None, <<f>>, VecR(VScale(v, f))) : v \in Vec2 \cup Vec3 \cup Vec4, f \in Factors }
-CRotate ==
-    { Case("rotateZ", v, None, <<g>>, VecR(RotZ(v, g))) : v \in Vec2 \cup Vec3 \cup Vec4, g \in Circle }
-    \cup { Case("rotateX", v, None, <<g>>, VecR(RotX(v, g))) : v \in Vec3 \cup Vec4, g \in Circle }
-    \cup { Case("rotateY", v, None, <<g>>, VecR(RotY(v, g))) : v \in Vec3 \cup Vec4, g \in Circle }
+CScale == { Case("scale", v, None, <<f>>) : v \in AllVecs, f \in Factors }
+          \cup { Case("divide", v, None, <<f>>) : v \in AllVecs, f \in Factors \ {Zero} }
+CRotate == { Case("rotateZ", v, None, <<g>>) : v \in AllVecs, g \in Circle }
+           \cup { Case(op, v, None, <<g>>) : op \in {"rotateX", "rotateY"}, v \in Vec3 \cup Vec4, g \in Circle }
 EulerVecs == IF Tier = "quick" THEN { V3(3, 4, 12), V3(1, 2, 3), V4(-9, 12, -20, 65) }
              ELSE { V3(3, 4, 12), V3(1, 2, 3), V4(-9, 12, -20, 65), V3(-2, 1, -1), V3(0, 0, 1), V4(1, 2, 3, 4) }
-CEuler ==
-    { Case("rotate_euler", v, None, <<e[1], e[2], e[3], o>>, VecR(RotEuler(v, e[1], e[2], e[3], o)))
-        : v \in EulerVecs, e \in EulerTriples, o \in EulerOrders }
-    \cup { Case("rotate_nautical", v, None, <<e[1], e[2], e[3]>>, VecR(RotNautical(v, e[1], e[2], e[3])))
-        : v \in EulerVecs, e \in EulerTriples }
-CQuat ==
-    { Case("rotate_quaternion", v, None, <<q>>, VecR(RotQuat(v, q))) : v \in Vec3 \cup Vec4, q \in Quats }
-CRotAxis ==
-    { Case("rotate_axis", v, VScale(u, l), <<g>>, VecR(RotAxis(v, VScale(u, l), g)))
-        : v \in Vec3 \cup Vec4, u \in Unit3, l \in AxisLengths, g \in Circle }
-CTransform ==
-    { Case("transform2D", v, None, <<m>>, VecR(TransformN(v, m))) : v \in Vec2, m \in Mats2 }
-    \cup { Case("transform3D", v, None, <<m>>, VecR(TransformN(v, m))) : v \in Vec3, m \in Mats3 }
-    \cup { Case("transform4D", v, None, <<m>>, VecR(TransformN(v, m))) : v \in Vec4, m \in Mats4 }
-CBoostAxis ==
-    { Case("boost" \o ax \o "_beta", v, None, <<b>>, VecR(BoostAxisBeta(v, IF ax = "X" THEN "x" ELSE IF ax = "Y" THEN "y" ELSE "z", b)))
-        : v \in Vec4, ax \in {"X", "Y", "Z"}, b \in Betas }
-    \cup { Case("boost" \o ax \o "_gamma", v, None, <<g>>, VecR(BoostAxisGamma(v, IF ax = "X" THEN "x" ELSE IF ax = "Y" THEN "y" ELSE "z", g)))
-        : v \in Vec4, ax \in {"X", "Y", "Z"}, g \in Gammas }
+CEuler == { Case("rotate_euler", v, None, <<e[1], e[2], e[3], o>>) : v \in EulerVecs, e \in EulerTriples, o \in EulerOrders }
+          \cup { Case("rotate_nautical", v, None, <<e[1], e[2], e[3]>>) : v \in EulerVecs, e \in EulerTriples }
+CQuat == { Case("rotate_quaternion", v, None, <<q>>) : v \in Vec3 \cup Vec4, q \in Quats }
+CRotAxis == { Case("rotate_axis", v, VScale(u, l), <<g>>) : v \in Vec3 \cup Vec4, u \in Unit3, l \in AxisLengths, g \in Circle }
+CTransform == { Case("transform2D", v, None, <<m>>) : v \in Vec2, m \in Mats2 }
+              \cup { Case("transform3D", v, None, <<m>>) : v \in Vec3, m \in Mats3 }
+              \cup { Case("transform4D", v, None, <<m>>) : v \in Vec4, m \in Mats4 }
+CBoostAxis == { Case(op, v, None, <<b>>) : op \in {"boostX_beta", "boostY_beta", "boostZ_beta"}, v \in Vec4, b \in Betas }
+              \cup { Case(op, v, None, <<g>>) : op \in {"boostX_gamma", "boostY_gamma", "boostZ_gamma"}, v \in Vec4, g \in Gammas }
 
 \* -------- binary operations
-Pairs(n) == VecOfDim(n) \X VecOfDim(n)
-CBinVec ==
-    { Case("add", p[1], p[2], None, VecR(VAdd(p[1], p[2]))) : p \in Pairs(2) \cup Pairs(3) \cup Pairs(4) }
-    \cup { Case("subtract", p[1], p[2], None, VecR(VSub(p[1], p[2]))) : p \in Pairs(2) \cup Pairs(3) \cup Pairs(4) }
-    \cup { Case("cross", p[1], p[2], None, VecR(Cross(p[1], p[2]))) : p \in Pairs(3) }
-CBinNum ==
-    { Case("dot", p[1], p[2], None, NumR(Dot(p[1], p[2]))) : p \in Pairs(2) \cup Pairs(3) \cup Pairs(4) }
-    \cup { Case("deltaphi", p[1], p[2], None, NumR(DeltaPhi(p[1], p[2]))) : p \in Pairs(2) \cup (Vec3 \X Vec4) \cup (Vec4 \X Vec2) }
-    \cup { Case("deltaangle", p[1], p[2], None, NumR(DeltaAngle(p[1], p[2]))) : p \in Pairs(3) \cup (Vec4 \X Vec3) }
-    \cup { Case("deltaeta", p[1], p[2], None, NumR(DeltaEta(p[1], p[2]))) : p \in Pairs(3) \cup (Vec3 \X Vec4) }
-    \cup { Case("deltaR", p[1], p[2], None, NumR(DeltaR(p[1], p[2]))) : p \in Pairs(3) \cup Pairs(4) }
-    \cup { Case("deltaR2", p[1], p[2], None, NumR(DeltaR2(p[1], p[2]))) : p \in Pairs(3) }
-    \cup { Case("deltaRapidityPhi", p[1], p[2], None, NumR(DeltaRapPhi(p[1], p[2]))) : p \in Pairs(4) }
-    \cup { Case("deltaRapidityPhi2", p[1], p[2], None, NumR(DeltaRapPhi2(p[1], p[2]))) : p \in Pairs(4) }
-CBoost ==
-    { Case("boost_p4", v, p, None, VecR(BoostP4(v, p))) : v \in Vec4, p \in Boosters4 }
-    \cup { Case("boost_beta3", v, b, None, VecR(BoostBeta3(v, b))) : v \in Vec4, b \in Beta3s }
-    \cup { Case("boostCM_of_p4", v, p, None, VecR(BoostCMP4(v, p))) : v \in Vec4, p \in Boosters4 }
-    \cup { Case("boostCM_of_beta3", v, b, None, VecR(BoostCMBeta3(v, b))) : v \in Vec4, b \in Beta3s }
-    \cup { Case("boost", v, p, None, VecR(BoostP4(v, p))) : v \in Vec4, p \in Boosters4 }
-    \cup { Case("boost", v, b, None, VecR(BoostBeta3(v, b))) : v \in Vec4, b \in Beta3s }
-    \cup { Case("boostCM_of", v, p, None, VecR(BoostCMP4(v, p))) : v \in Vec4, p \in Boosters4 }
-    \cup { Case("boostCM_of", v, b, None, VecR(BoostCMBeta3(v, b))) : v \in Vec4, b \in Beta3s }
+AllPairs == Pairs(2) \cup Pairs(3) \cup Pairs(4)
+CBinVec == { Case(op, p[1], p[2], None) : op \in {"add", "subtract"}, p \in AllPairs }
+           \cup { Case("cross", p[1], p[2], None) : p \in Pairs(3) }
+CBinNum == { Case("dot", p[1], p[2], None) : p \in AllPairs }
+           \cup { Case("deltaphi", p[1], p[2], None) : p \in Pairs(2) \cup (Vec3 \X Vec4) \cup (Vec4 \X Vec2) }
+           \cup { Case("deltaangle", p[1], p[2], None) : p \in Pairs(3) \cup (Vec4 \X Vec3) }
+           \cup { Case("deltaeta", p[1], p[2], None) : p \in Pairs(3) \cup (Vec3 \X Vec4) }
+           \cup { Case("deltaR", p[1], p[2], None) : p \in Pairs(3) \cup Pairs(4) }
+           \cup { Case("deltaR2", p[1], p[2], None) : p \in Pairs(3) }
+           \cup { Case(op, p[1], p[2], None) : op \in {"deltaRapidityPhi", "deltaRapidityPhi2"}, p \in Pairs(4) }
+CBoost == { Case(op, v, p, None) : op \in {"boost_p4", "boostCM_of_p4", "boost", "boostCM_of"}, v \in Vec4, p \in Boosters4 }
+          \cup { Case(op, v, b, None) : op \in {"boost_beta3", "boostCM_of_beta3", "boost", "boostCM_of"}, v \in Vec4, b \in Beta3s }
 
-\* -------- predicates (exact booleans)
-CPred ==
-    { Case("is_parallel", p[1], p[2], <<k>>, BoolR(IsParallel(p[1], p[2], k))) : p \in (Small2 \X Small2) \cup (Small3 \X Small3), k \in Tols }
-    \cup { Case("is_antiparallel", p[1], p[2], <<k>>, BoolR(IsAntiparallel(p[1], p[2], k))) : p \in (Small2 \X Small2) \cup (Small3 \X Small3), k \in Tols }
-    \cup { Case("is_perpendicular", p[1], p[2], <<k>>, BoolR(IsPerpendicular(p[1], p[2], k))) : p \in (Small2 \X Small2) \cup (Small3 \X Small3), k \in Tols }
-    \cup { Case("is_timelike", v, None, <<k>>, BoolR(IsTimelike(v, k))) : v \in Vec4 \cup Small4, k \in CausalTols }
-    \cup { Case("is_spacelike", v, None, <<k>>, BoolR(IsSpacelike(v, k))) : v \in Vec4 \cup Small4, k \in CausalTols }
-    \cup { Case("is_lightlike", v, None, <<k>>, BoolR(IsLightlike(v, k))) : v \in Vec4 \cup Small4, k \in CausalTols }
+\* -------- predicates (exact three-valued booleans)
+SmallPairs == (Small2 \X Small2) \cup (Small3 \X Small3)
+CPred == { Case(op, p[1], p[2], <<k>>) : op \in {"is_parallel", "is_antiparallel", "is_perpendicular"}, p \in SmallPairs, k \in Tols }
+         \cup { Case(op, v, None, <<k>>) : op \in {"is_timelike", "is_spacelike", "is_lightlike"}, v \in Vec4 \cup Small4, k \in CausalTols }
 
 CONSTANT Group      \* which group this run enumerates ("all" for every group)
 
@@ -131,7 +90,6 @@ Spec == Init /\ [][Next]_c
 \* always TRUE: prints the case.
 Emit == PrintT("@@CASE " \o ToJson(c))
 
-\* ------------------------------------------------------------- sanity
 \* every case has one of the four result shapes (TLC checks this on every state)
 WellFormed == c.exp[1] \in {"num", "vec", "bool", "undef"}
 =============================================================================
